@@ -360,3 +360,37 @@ Example C12_avl_edges :
   = map Ok [RSlot (Some 1); RSlot (Some 2); RSlot None; RVal (Some 40%Z); RSlot (Some 1);
             RVal (Some 6%Z); RVal (Some 60%Z); RVal (Some 70%Z); RVal None; RBool true].
 Proof. repeat split; vm_compute; reflexivity. Qed.
+
+(* ------------------------------------------------------------------ *)
+(* Explicit handles (Avl/Session.v): a mutable view that stays open across operations, opened anew
+   only after the buffer was extended or a view was requested; includes trees initialised with a
+   capacity smaller than the record count of their buffer and used through the same handle. *)
+From Stevia Require Import Avl.Session Avl.SessionFacts.
+Open Scope N_scope.
+Theorem C12_session_total_u8 :
+  forall (capacity nrec : N) (keep : bool) (ops : list op),
+    capacity <= nrec -> nrec <= 254 ->
+    growth_okw_sess 8 (spec_init_sess capacity nrec keep) ops ->
+    Forall ResMore.res_ok (run_sess 8 (init_sess capacity nrec keep) ops) /\
+    length (run_sess 8 (init_sess capacity nrec keep) ops) = length ops.
+Proof. exact run_sess_total_u8. Qed.
+Print Assumptions C12_session_total_u8.
+
+Theorem C12_session_total_u32 :
+  forall (capacity nrec : N) (keep : bool) (ops : list op),
+    capacity <= nrec -> nrec + 1 < 2 ^ 32 ->
+    growth_okw_sess 32 (spec_init_sess capacity nrec keep) ops ->
+    Forall ResMore.res_ok (run_sess 32 (init_sess capacity nrec keep) ops) /\
+    length (run_sess 32 (init_sess capacity nrec keep) ops) = length ops.
+Proof. exact run_sess_total_u32. Qed.
+Print Assumptions C12_session_total_u32.
+
+Theorem C12_session_total_u8_255 :
+  forall (keep : bool) (ops : list op),
+    Forall no_ext ops ->
+    exists outs : list out,
+      run_sess 8 (init_sess 255 255 keep) ops = map Ok outs /\
+      map out_abs outs = run_s_sess (spec_init_sess 255 255 keep) ops.
+Proof. exact run_sess_refines_u8_255. Qed.
+Print Assumptions C12_session_total_u8_255.
+
